@@ -77,7 +77,9 @@ def run(chk, decks, clauses, seed, opts_of=None, npts=96):
         if i in family:
             d = numberings.apply(d, family[i])
         elif i in set(renumbered):
-            d = adeck.renumber(d, *adeck.RENUMBERINGS[1 + (i // 3) % 3])
+            d = adeck.renumber(d, *adeck.RENUMBERINGS[1 + (i // 6) % 4])
+        elif i % 9 == 5:
+            d = adeck.lookalike_numbers(d) or d        # surface cards numbered like 1000*cell+surface
         if i % 5 == 0 and not d.get('impcards') and not any(c.get('like') or c.get('impsrc') == 'data' for c in d['cells']):
             d['cells'] = list(d['cells'])          # the cards of a block in another order
             d['surfs'] = list(d['surfs'])
@@ -88,6 +90,8 @@ def run(chk, decks, clauses, seed, opts_of=None, npts=96):
             for c in d['cells']:         # redundant parentheses around runs of operands: same region
                 if not c.get('like'):
                     c['parens'] = ('pairs%d' % (1 + (i // 7) % 3)) if c.get('lat') else rng.randrange(1000)
+        if i % 11 == 7:
+            adeck.pad_cells(d)               # intersections of a dozen operands
         if i % 7 == 6:
             for c in d['cells']:         # the equals sign of a keyword is optional
                 c['eqstyle'] = 'blank' if (i // 7) % 2 else 'spaced'
